@@ -83,6 +83,8 @@ enum Instr {
     Index(usize, Vec<usize>),
     IndexFlat(usize, usize),
     Eq(usize, usize),
+    /// `abs_diff_eq` / `relative_eq` of the `approx` traits with their default tolerances (C16)
+    ApproxEq(bool, usize, usize),
     Obs(usize),
     SumAll(usize),
     Update(Float, Vec<usize>),
@@ -213,6 +215,14 @@ fn parse_instr(line: &str) -> Instr {
         "eq" => {
             let a = t.u();
             Instr::Eq(a, t.u())
+        }
+        "abseq" => {
+            let a = t.u();
+            Instr::ApproxEq(false, a, t.u())
+        }
+        "releq" => {
+            let a = t.u();
+            Instr::ApproxEq(true, a, t.u())
         }
         "obs" => Instr::Obs(t.u()),
         "sumall" => Instr::SumAll(t.u()),
@@ -560,6 +570,20 @@ fn exec(
         }
         Instr::Eq(a, b) => {
             let e = var(vars, *a) == var(vars, *b);
+            item(2, &[e as usize], &[], out);
+        }
+        Instr::ApproxEq(rel, a, b) => {
+            let (x, y) = (var(vars, *a), var(vars, *b));
+            let e = if *rel {
+                approx::RelativeEq::relative_eq(
+                    x,
+                    y,
+                    <Array as approx::AbsDiffEq>::default_epsilon(),
+                    <Array as approx::RelativeEq>::default_max_relative(),
+                )
+            } else {
+                approx::AbsDiffEq::abs_diff_eq(x, y, <Array as approx::AbsDiffEq>::default_epsilon())
+            };
             item(2, &[e as usize], &[], out);
         }
         Instr::Obs(h) => {
